@@ -623,7 +623,7 @@ def cases(tier, seed):
               {'fam': 'DET', 'kind': 'small'}, {'fam': 'DET', 'kind': 'mem'}, {'fam': 'DET', 'kind': 'bad_names'}]:
         for ch in range(4):
             out.append(dict(d, k='build', sample=120 if tier == 'quick' else None, chunk=ch))
-    ro = designs.expr_cases(6 if tier == 'quick' else 40, seed + 51, n=6, maxw=4, nrom=0, ops=['+', '-', '&', '|', '^', '~', '<', 'x', 'c', 's', 'trunc', 'const']) + \
+    ro = designs.expr_cases(6 if tier == 'quick' else 150, seed + 51, n=6, maxw=4, nrom=0, ops=['+', '-', '&', '|', '^', '~', '<', 'x', 'c', 's', 'trunc', 'const']) + \
         [c for c in designs.seq_cases(widths=(3,)) if c['kind'] != 'rom_reg'] + designs.misc_cases()[:8] + [{'fam': 'DET', 'kind': 'small'},
                                                                                                        {'fam': 'DET', 'kind': 'func_rom'}, {'fam': 'DET', 'kind': 'list_rom'}]
     for i, c in enumerate(ro):
